@@ -5,7 +5,7 @@
    mapping with distinct values and prefix-free indices of any widths, compute placeholder.
    Only statements; proofs in theories/SchcCodec.v. *)
 From Coq Require Import ZArith List Bool.
-From MS Require Import PyBase Buffer Bits BufferAbs Schc SchcSpec SchcCodec SchcBytes SchcRefine.
+From MS Require Import PyBase Buffer Bits BufferAbs Schc SchcSpec SchcCodec SchcBytes SchcRefine Compute ComputeBytes ComputeRefine.
 Import ListNotations.
 Open Scope Z_scope.
 
@@ -29,11 +29,22 @@ Theorem c03_decompress_nocompute ct r d vs rs payload :
   spec_residues vs rfs = Some rs ->
   decompress ct (rule_id r ++ rs ++ payload) r d = Ok (concat vs ++ payload).
 Proof. exact (decompress_layout_nocompute ct r d vs rs payload). Qed.
-(* whole packet, general: compute fields are regenerated over the rebuilt field list (what they compute is C09) *)
+(* whole packet, general: compute fields are regenerated over the rebuilt field list (what they compute is C09),
+   in the order list.sort puts the compute entries in (Schc.py_sort_ces: CPython's algorithm for fewer than 64 entries) *)
+Theorem c03_decompress_sort ct r d vs rs payload ces :
+  let rfs := select_fds d (rule_fds r) in
+  length vs = length rfs -> forallb2 (fun rf v => wf_field ct rf v) rfs vs = true ->
+  spec_residues vs rfs = Some rs -> py_sort_ces (centries_of ct 0 rfs) = Some ces ->
+  decompress ct (rule_id r ++ rs ++ payload) r d =
+    (do fs' <- run_computes ces (combine (map r_id rfs) vs ++ [(payload_fid, payload)]) ;;
+     Ok (concat (map snd fs'))).
+Proof. exact (decompress_layout_sort ct r d vs rs payload ces). Qed.
+(* entries already in the order of the comparison (fewer than 64 of them): run in rule order *)
 Theorem c03_decompress ct r d vs rs payload :
   let rfs := select_fds d (rule_fds r) in
   length vs = length rfs -> forallb2 (fun rf v => wf_field ct rf v) rfs vs = true ->
   spec_residues vs rfs = Some rs -> ce_sorted (centries_of ct 0 rfs) = true ->
+  (length (centries_of ct 0 rfs) < 64)%nat ->
   decompress ct (rule_id r ++ rs ++ payload) r d =
     (do fs' <- run_computes (centries_of ct 0 rfs) (combine (map r_id rfs) vs ++ [(payload_fid, payload)]) ;;
      Ok (concat (map snd fs'))).
@@ -62,10 +73,23 @@ Example c03_ex :
              (mkrule [true] Compression [rf1; rf2]) None = Ok ([false;false] ++ [true;false;true] ++ [false]).
 Proof. vm_compute. repeat split; reflexivity. Qed.
 
+(* the byte-level decompress with the compute stage (ComputeBytes.bdecompress_c) refines the bit-level one for EVERY rule:
+   same packet, or the same exception *)
+Theorem c03_decompress_bytes_compute s r d p : canon s -> canon_rule r ->
+  decompress compute_functions (abs s) (abs_rule abs r) d = Ok p ->
+  exists x, bdecompress_c s r d = Ok x /\ canon x /\ abs x = p.
+Proof. exact (bdecompress_c_refines s r d p). Qed.
+Theorem c03_decompress_bytes_exception s r d e : canon s -> canon_rule r ->
+  decompress compute_functions (abs s) (abs_rule abs r) d = Exc e -> bdecompress_c s r d = Exc e.
+Proof. exact (bdecompress_c_exc s r d e). Qed.
+
 Print Assumptions c03_field.
 Print Assumptions c03_fields.
 Print Assumptions c03_decompress_nocompute.
+Print Assumptions c03_decompress_sort.
 Print Assumptions c03_decompress.
 Print Assumptions c03_no_compression.
 Print Assumptions c03_decompress_bytes.
 Print Assumptions c03_decode_var_bytes.
+Print Assumptions c03_decompress_bytes_compute.
+Print Assumptions c03_decompress_bytes_exception.
